@@ -456,7 +456,7 @@ func init() {
 						case system.Integer:
 							return []any{x + 1, system.Integer(0), system.Integer(-1), system.Integer(5), system.Integer(2)}
 						case system.Decimal:
-							return []any{system.MustParseDecimal("7.25"), system.MustParseDecimal("0.0"), system.MustParseDecimal("-1.5"), system.MustParseDecimal("2.0"), system.MustParseDecimal("0.5")}
+							return []any{lib.Dec("7.25"), lib.Dec("0.0"), lib.Dec("-1.5"), lib.Dec("2.0"), lib.Dec("0.5")}
 						case system.Boolean:
 							return []any{!x, !x, x, !x, x}
 						}
@@ -567,7 +567,7 @@ func init() {
 						{"a": system.Integer(1), "b": system.Integer(2), "s": system.String("y"), "t": system.String("y"), "p": system.Boolean(false), "q": system.Boolean(false), "c": system.Collection{system.String("u"), system.String("v")}},
 						{"a": system.Integer(2), "b": system.Integer(0), "s": system.String(""), "t": system.String("x"), "p": system.Boolean(true), "q": system.Boolean(true), "c": system.Collection{}},
 						{"a": system.Integer(-1), "b": system.Integer(7), "s": system.String("xy"), "t": system.String("x"), "p": system.Boolean(false), "q": system.Boolean(true), "c": system.Collection{system.Integer(5)}},
-						{"a": system.MustParseDecimal("1.5"), "b": system.MustParseDecimal("0.5"), "s": system.String("é"), "t": system.String("é"), "p": system.Collection{}, "q": system.Boolean(true), "c": system.Collection{system.Boolean(true), system.Boolean(false), system.Boolean(true), system.Boolean(true)}},
+						{"a": lib.Dec("1.5"), "b": lib.Dec("0.5"), "s": system.String("é"), "t": system.String("é"), "p": system.Collection{}, "q": system.Boolean(true), "c": system.Collection{system.Boolean(true), system.Boolean(false), system.Boolean(true), system.Boolean(true)}},
 						{"a": system.Integer(3), "b": system.Integer(3), "s": system.String("x"), "t": system.String("X"), "p": system.Boolean(true), "q": system.Collection{}, "c": system.Collection{system.Integer(10), system.Integer(20), system.Integer(30)}},
 					}
 					shared := lib.Compile(src)
@@ -598,7 +598,7 @@ func init() {
 					for k := 0; k < 40; k++ {
 						big = append(big, system.String(fmt.Sprintf("s%02d", (k*7)%23)))
 						ints = append(ints, system.Integer(int32((k*5)%17)))
-						decs = append(decs, system.MustParseDecimal(fmt.Sprintf("%d.%d", (k*3)%11, k%3)))
+						decs = append(decs, lib.Dec(fmt.Sprintf("%d.%d", (k*3)%11, k%3)))
 					}
 					p := lib.Patient()
 					for k := 0; k < 22; k++ {
